@@ -134,7 +134,7 @@ def concretise(abstract, rnd):
             empties = [x for x in BUCKETS if exists[x] and count[x] == 0]
             absent = [x for x in BUCKETS if not exists[x]] or ["Z"]
             present = [x for x in BUCKETS if exists[x]]
-            if present and rnd.random() < 0.35:
+            if present and rnd.random() < 0.55:
                 ops.append({"op": "fail_upsert_unknown", "b": rnd.choice(present)})
             elif empties and rnd.random() < 0.6:
                 ops.append({"op": "fail_replace_last", "b": rnd.choice(empties)})
@@ -227,7 +227,7 @@ def random_abstract(rnd):
                 out.append({"op": "read", "n": 0})
             else:
                 out.append({"op": "bucket", "n": rnd.choice([1, 1, 2])})
-        if rnd.random() < 0.12:
+        if rnd.random() < 0.2:
             out.append({"op": "fail", "n": 0})
             if rnd.random() < 0.5:
                 out.insert(max(0, len(out) - 3), {"op": "bucket", "n": 1})      # a freshly created (empty) bucket to fail on
@@ -432,6 +432,10 @@ class Runner:
                                 e, t = self.ev()
                                 ds[b].replace_last(e)
                             # a backend may also treat this as a no-op; it must not create an event
+                        elif o == "fail_upsert_unknown":
+                            e, t = self.ev()
+                            e.id = 987654321
+                            ds[b].insert([e])          # an id no event has: a backend may raise or ignore it, it must not store anything
                         elif o == "fail_delete_bucket":
                             ds.delete_bucket(b)
                         elif o == "fail_update_bucket":
